@@ -30,7 +30,7 @@ theorem reply_without_slot_refused (b : Bus) (s r : ConnId) (m : Msg) (rules : L
     unfold requestedReply checkReply
     simp [hact, hr, hmem]
   have hv : policyVerdict b (some s) (some r) (some r) m false = some .accessDenied := by
-    unfold policyVerdict
+    unfold policyVerdict sendAllowed
     simp only [senderInactive, hact, Bool.not_true, Bool.false_eq_true, if_false, hrules]
     rw [honly _ _ (msgView_isReply m hr)]
     simp
